@@ -38,7 +38,7 @@ impl Prop for C05Prop {
             n_small: (0, 10),
             n_large: (21, 45),
             // weighted runs need positive, exactly summable weights (ties are exact)
-            regimes: vec![WeightRegime::AllNan, WeightRegime::Dyadic, WeightRegime::Dyadic, WeightRegime::SmallInt, WeightRegime::Nasty, WeightRegime::FineDyadic, WeightRegime::NearEqual, WeightRegime::Tiny],
+            regimes: vec![WeightRegime::AllNan, WeightRegime::Dyadic, WeightRegime::Dyadic, WeightRegime::SmallInt, WeightRegime::Nasty, WeightRegime::MostlyOnes, WeightRegime::FineDyadic, WeightRegime::NearEqual, WeightRegime::Tiny],
             kinds: AlgoGen::all_kinds(),
             shapes: None,
             lifecycle_pct: 30,
@@ -160,7 +160,7 @@ impl Prop for C05Prop {
         cx.states.push(super::lifecycle::ops_hash(&case.ops));
     }
     fn rule(&self) -> String {
-        "graphs of all 8 kinds (shapes and lifecycle-built, n <= 10 or 21-45), hop counts or positive dyadic weights; betweenness_centrality(weighted x normalized) under a simulated pool of 1-16 workers vs the definition (sum over ordered pairs of sigma(s,v) sigma(v,t)/sigma(s,t) from Floyd-Warshall distances and path counts, halved when undirected, /(n-1)(n-2) when normalized and n > 2) at 1e-9, exactly one entry per node. distinct_nontrivial = distinct graphs with >= 2 edges; one case in 1500 is a dense graph (1-3 blocks, 60-300 nodes) with 2 100 - 12 500 stored edges under a pool of 2-16 workers (strategy thresholds); weights also 1 + k 2^-j (exact) and decimal / near-equal / 1e-17-scale weights, for which the whole vector must equal the definition under the accumulated-float reading (Brandes accumulation over bit-exact ties of the least fixpoint d(v) = min fl(d(u)+w)) or under the 1e-9 reading".into()
+        "graphs of all 8 kinds (shapes and lifecycle-built, n <= 10 or 21-45), hop counts or positive dyadic weights; betweenness_centrality(weighted x normalized) under a simulated pool of 1-16 workers vs the definition (sum over ordered pairs of sigma(s,v) sigma(v,t)/sigma(s,t) from Floyd-Warshall distances and path counts, halved when undirected, /(n-1)(n-2) when normalized and n > 2) at 1e-9, exactly one entry per node. distinct_nontrivial = distinct graphs with >= 2 edges; one case in 1500 is a dense graph (1-3 blocks, 60-300 nodes) with 2 100 - 12 500 stored edges under a pool of 2-16 workers (strategy thresholds); weights also 1 + k 2^-j (exact) and decimal / near-equal / 1e-17-scale weights, for which the whole vector must equal the definition under the accumulated-float reading (Brandes accumulation over bit-exact ties of the least fixpoint d(v) = min fl(d(u)+w)) or under the 1e-9 reading; in a third of the cases a battery of valid unjudged calls runs first on a sibling graph (same names and edges, other node order), in a fifth the graph is queried on the same object before its last one to three operations are applied (DESIGN.md 0.2)".into()
     }
     fn assumptions(&self) -> Vec<String> {
         vec!["under dyadic weights path-length ties are exact and the definition is unique; under inexactly summable weights two readings of \"shortest\" are accepted (accumulated floats compared bit for bit, or ties at 1e-9) and the vector must match one of them as a whole; graphs whose weight scales differ by more than 1e9 are skipped in weighted mode".into()]
